@@ -550,6 +550,13 @@ pub fn run(tier: Tier, started: Instant) -> Vec<Part> {
 }
 
 pub fn replay(v: &Value) -> Result<(), String> {
+    if v["kind"].as_str() == Some("drop-during-notification") {
+        let p = drop_during_notification();
+        return match p.violations.first() {
+            Some(x) => Err(x.what.clone()),
+            None => Ok(()),
+        };
+    }
     let life = |s: &str| match s {
         "Dropped" => Life::Dropped,
         "Forever" => Life::Forever,
